@@ -1,5 +1,811 @@
+// C43: the real calc.L3RouteResolver feeding the real VXLAN / IPIP / no-encap
+// managers (each with its real routeManager) over a recording route table.
+// Histories are node / pool / block / borrowed-address / local-workload updates
+// in seed-chosen orders; the oracle restates the property over the model.
 package h_dpmgr
 
-import "verifsim/core"
+import (
+	"fmt"
+	"net"
+	"net/netip"
+	"sort"
+	"strings"
 
-func runRoutes(r *core.R) string { r.HarnessError("C43 not implemented yet"); return "" }
+	metav1 "k8s.io/apimachinery/pkg/apis/meta/v1"
+
+	"github.com/projectcalico/calico/felix/calc"
+	intdataplane "github.com/projectcalico/calico/felix/dataplane/linux"
+	"github.com/projectcalico/calico/felix/ipsets"
+	"github.com/projectcalico/calico/felix/proto"
+	"github.com/projectcalico/calico/felix/routetable"
+	"github.com/projectcalico/calico/felix/rules"
+	"github.com/projectcalico/calico/libcalico-go/lib/apis/internalapi"
+	"github.com/projectcalico/calico/libcalico-go/lib/backend/api"
+	"github.com/projectcalico/calico/libcalico-go/lib/backend/encap"
+	"github.com/projectcalico/calico/libcalico-go/lib/backend/model"
+	cnet "github.com/projectcalico/calico/libcalico-go/lib/net"
+
+	"verifsim/core"
+)
+
+const localNode = "node-l"
+
+var remoteNodes = []string{"node-a", "node-b", "node-c"}
+
+// node addresses: two in 192.168.1.0/24 (the local node's narrow subnet), two outside it but inside 192.168.0.0/16
+var nodeAddrPool = []string{"192.168.1.11", "192.168.2.11", "192.168.1.12", "192.168.2.12"}
+var vtepAddrOf = map[string]string{localNode: "172.31.0.1", "node-a": "172.31.0.11", "node-b": "172.31.0.12", "node-c": "172.31.0.13"}
+var vtepMacOf = map[string]string{localNode: "66:00:00:00:00:01", "node-a": "66:00:00:00:00:11", "node-b": "66:00:00:00:00:12", "node-c": "66:00:00:00:00:13"}
+var poolCIDRs = []string{"10.1.0.0/16", "10.2.0.0/16", "10.3.0.0/16"}
+var blockCIDRs = []string{"10.1.0.0/26", "10.2.0.0/26", "10.1.0.64/26", "10.3.0.0/26", "10.2.0.64/26", "10.9.0.0/26"}
+
+type poolMode int
+
+const (
+	pmNoEncap poolMode = iota
+	pmIPIP
+	pmIPIPCross
+	pmVXLAN
+	pmVXLANCross
+)
+
+var poolModeNames = []string{"no-encap", "ipip", "ipip-cross-subnet", "vxlan", "vxlan-cross-subnet"}
+
+func (m poolMode) cross() bool { return m == pmIPIPCross || m == pmVXLANCross }
+
+type blockM struct {
+	affinity string            // "" = none
+	allocs   map[int]string    // ordinal -> owning node
+}
+
+type rmodel struct {
+	nodeAddr  map[string]string // node -> address (present = node resource exists)
+	localMask int               // prefix length of the local node's subnet
+	hostMeta  map[string]string // what the managers were told (HostMetadataUpdate)
+	vtep      map[string]string // node -> parent device ip as told to the VXLAN manager
+	pools     map[string]poolMode
+	blocks    map[string]*blockM
+	weps      map[string]string // local workload name -> ip
+}
+
+type routeDP struct {
+	rt     *fakeRouteTable
+	sets   *fakeIPSets
+	fdb    *fakeFDB
+	nl     *fakeNetlink
+	mgrs   []intdataplane.SimRouteManager // vxlan, ipip, noencap
+	res    *calc.L3RouteResolver
+	parent []string // parent device each manager knows (harness's view of what it was told / could detect)
+	pAddr  []string // local address each manager was told
+	nUpd   int
+	nRem   int
+}
+
+func (d *routeDP) OnRouteUpdate(u *proto.RouteUpdate) {
+	d.nUpd++
+	for _, m := range d.mgrs {
+		m.OnUpdate(u)
+	}
+}
+
+func (d *routeDP) OnRouteRemove(dst string) {
+	d.nRem++
+	msg := &proto.RouteRemove{Dst: dst}
+	for _, m := range d.mgrs {
+		m.OnUpdate(msg)
+	}
+}
+
+func (d *routeDP) toMgrs(msg any) {
+	for _, m := range d.mgrs {
+		m.OnUpdate(msg)
+	}
+}
+
+func newRouteDP() *routeDP {
+	d := &routeDP{rt: newFakeRouteTable(), sets: newFakeIPSets(ipsets.IPFamilyV4), fdb: &fakeFDB{}, parent: make([]string, 3), pAddr: make([]string, 3)}
+	d.nl = &fakeNetlink{links: []fakeLink{{name: "eth0", index: 2, addrs: []string{"192.168.1.1"}}, {name: "eth1", index: 3, addrs: []string{"192.168.1.2"}}}}
+	cfg := intdataplane.Config{
+		Hostname: localNode, MaxIPSetSize: 1024, ProgramIPIPClusterRoutes: true, IPIPMTU: 1440,
+		RulesConfig: rules.Config{VXLANVNI: 4096, VXLANPort: 4789},
+	}
+	d.mgrs = []intdataplane.SimRouteManager{
+		intdataplane.NewVXLANManagerForSim(d.sets, d.rt, d.fdb, "vxlan.calico", 4, 1410, cfg, nopRecorder{}, d.nl),
+		intdataplane.NewIPIPManagerForSim(d.rt, "tunl0", 4, 1440, cfg, nopRecorder{}, d.nl),
+		intdataplane.NewNoEncapManagerForSim(d.rt, 4, cfg, nopRecorder{}, d.nl),
+	}
+	d.res = calc.NewL3RouteResolver(localNode, d, "CalicoIPAM")
+	d.res.OnAlive = func() {}
+	return d
+}
+
+// apply runs CompleteDeferredWork on the three managers and tracks which parent device each one can know.
+func (d *routeDP) apply() {
+	for i, m := range d.mgrs {
+		if d.parent[i] == "" && d.pAddr[i] != "" && !d.nl.failList {
+			for _, l := range d.nl.links {
+				for _, a := range l.addrs {
+					if a == d.pAddr[i] && d.parent[i] == "" {
+						d.parent[i] = l.name
+					}
+				}
+			}
+		}
+		_ = m.CompleteDeferredWork()
+	}
+}
+
+func mustNet(s string) cnet.IPNet {
+	_, n, err := cnet.ParseCIDR(s)
+	if err != nil {
+		panic(err)
+	}
+	return *n
+}
+
+// ---- deliveries to the resolver / managers
+
+func (d *routeDP) sendNode(name, addr string, mask int) {
+	key := model.ResourceKey{Kind: internalapi.KindNode, Name: name}
+	if addr == "" {
+		d.res.OnResourceUpdate(api.Update{KVPair: model.KVPair{Key: key}, UpdateType: api.UpdateTypeKVDeleted})
+		return
+	}
+	n := &internalapi.Node{ObjectMeta: metav1.ObjectMeta{Name: name}}
+	n.Spec.BGP = &internalapi.NodeBGPSpec{IPv4Address: fmt.Sprintf("%s/%d", addr, mask)}
+	d.res.OnResourceUpdate(api.Update{KVPair: model.KVPair{Key: key, Value: n}, UpdateType: api.UpdateTypeKVUpdated})
+}
+
+func (d *routeDP) sendHostMeta(name, addr string) {
+	if addr == "" {
+		d.toMgrs(&proto.HostMetadataRemove{Hostname: name})
+	} else {
+		d.toMgrs(&proto.HostMetadataUpdate{Hostname: name, Ipv4Addr: addr})
+	}
+	if name == localNode {
+		d.pAddr[1], d.pAddr[2] = addr, addr
+	}
+}
+
+func (d *routeDP) sendVTEP(name, addr string) {
+	if addr == "" {
+		d.toMgrs(&proto.VXLANTunnelEndpointRemove{Node: name})
+	} else {
+		d.toMgrs(&proto.VXLANTunnelEndpointUpdate{Node: name, Mac: vtepMacOf[name], Ipv4Addr: vtepAddrOf[name], ParentDeviceIp: addr})
+	}
+	if name == localNode {
+		d.pAddr[0] = addr
+	}
+}
+
+func (d *routeDP) sendPool(cidr string, mode poolMode, present bool) {
+	key := model.IPPoolKey{CIDR: netip.MustParsePrefix(cidr)}
+	if !present {
+		d.res.OnPoolUpdate(api.Update{KVPair: model.KVPair{Key: key}, UpdateType: api.UpdateTypeKVDeleted})
+		return
+	}
+	p := &model.IPPool{CIDR: mustNet(cidr), IPIPMode: encap.Never, VXLANMode: encap.Never, IPAM: true}
+	switch mode {
+	case pmIPIP:
+		p.IPIPMode = encap.Always
+	case pmIPIPCross:
+		p.IPIPMode = encap.CrossSubnet
+	case pmVXLAN:
+		p.VXLANMode = encap.Always
+	case pmVXLANCross:
+		p.VXLANMode = encap.CrossSubnet
+	}
+	d.res.OnPoolUpdate(api.Update{KVPair: model.KVPair{Key: key, Value: p}, UpdateType: api.UpdateTypeKVUpdated})
+}
+
+func (d *routeDP) sendBlock(cidr string, b *blockM) {
+	key := model.BlockKey{CIDR: netip.MustParsePrefix(cidr)}
+	if b == nil {
+		d.res.OnBlockUpdate(api.Update{KVPair: model.KVPair{Key: key}, UpdateType: api.UpdateTypeKVDeleted})
+		return
+	}
+	blk := &model.AllocationBlock{CIDR: mustNet(cidr)}
+	if b.affinity != "" {
+		a := "host:" + b.affinity
+		blk.Affinity = &a
+	}
+	blk.Allocations = make([]*int, 64)
+	ords := make([]int, 0, len(b.allocs))
+	for o := range b.allocs {
+		ords = append(ords, o)
+	}
+	sort.Ints(ords)
+	for _, o := range ords {
+		idx := len(blk.Attributes)
+		h := fmt.Sprintf("handle-%d", o)
+		blk.Attributes = append(blk.Attributes, model.AllocationAttribute{HandleID: &h, ActiveOwnerAttrs: map[string]string{model.IPAMBlockAttributeNode: b.allocs[o]}})
+		blk.Allocations[o] = &idx
+	}
+	for o := 0; o < 64; o++ {
+		if blk.Allocations[o] == nil {
+			blk.Unallocated = append(blk.Unallocated, o)
+		}
+	}
+	d.res.OnBlockUpdate(api.Update{KVPair: model.KVPair{Key: key, Value: blk}, UpdateType: api.UpdateTypeKVUpdated})
+}
+
+func (d *routeDP) sendWep(name, ipAddr string) {
+	key := model.WorkloadEndpointKey{Hostname: localNode, OrchestratorID: "k8s", WorkloadID: "default/" + name, EndpointID: "eth0"}
+	if ipAddr == "" {
+		d.res.OnWorkloadUpdate(api.Update{KVPair: model.KVPair{Key: key}, UpdateType: api.UpdateTypeKVDeleted})
+		return
+	}
+	w := &model.WorkloadEndpoint{State: "active", Name: "cali" + name, IPv4Nets: []cnet.IPNet{mustNet(ipAddr + "/32")}}
+	d.res.OnWorkloadUpdate(api.Update{KVPair: model.KVPair{Key: key, Value: w}, UpdateType: api.UpdateTypeKVUpdated})
+}
+
+// ---- model helpers
+
+func nthIP(cidr string, n int) string {
+	ipa, _, _ := net.ParseCIDR(cidr)
+	v4 := ipa.To4()
+	return net.IPv4(v4[0], v4[1], v4[2], v4[3]+byte(n)).String()
+}
+
+func contains(cidr, addr string) bool {
+	_, n, err := net.ParseCIDR(cidr)
+	if err != nil {
+		return false
+	}
+	return n.Contains(net.ParseIP(addr))
+}
+
+func (m *rmodel) poolOf(cidr string) (poolMode, bool) {
+	base := strings.Split(cidr, "/")[0]
+	for _, p := range core.SortedKeys(m.pools) {
+		if contains(p, base) {
+			return m.pools[p], true
+		}
+	}
+	return 0, false
+}
+
+func (m *rmodel) localSubnet() string {
+	a, ok := m.nodeAddr[localNode]
+	if !ok {
+		return ""
+	}
+	_, n, _ := net.ParseCIDR(fmt.Sprintf("%s/%d", a, m.localMask))
+	return n.String()
+}
+
+type expRoute struct{ class routetable.RouteClass; iface, cidr, typ, gw string }
+
+func fmtExp(e expRoute) string { return fmt.Sprintf("%s type=%s gw=%s", e.cidr, e.typ, e.gw) }
+
+// expected restates C43 over the model.  skip lists /32s whose treatment the property does not fix
+// (addresses borrowed BY the local node).  undecided[k] marks managers whose parent device is unknown
+// because of an injected netlink failure: direct-vs-tunnel is then not checked for them.
+func (s *rsim) expected() (map[string][]string, map[string]bool) {
+	m := s.m
+	exp := map[string][]string{}
+	skip := map[string]bool{}
+	add := func(e expRoute) {
+		k := fmt.Sprintf("%d/%s", int(e.class), e.iface)
+		exp[k] = append(exp[k], fmtExp(e))
+	}
+	remote := func(cidr, owner string) {
+		mode, ok := m.poolOf(cidr)
+		if !ok {
+			return
+		}
+		addr, known := m.nodeAddr[owner]
+		if !known {
+			return // cannot route via a node whose address is unknown
+		}
+		mi := map[poolMode]int{pmVXLAN: 0, pmVXLANCross: 0, pmIPIP: 1, pmIPIPCross: 1, pmNoEncap: 2}[mode]
+		direct := mode == pmNoEncap || (mode.cross() && m.localSubnet() != "" && contains(m.localSubnet(), addr))
+		if direct && s.sut.parent[mi] != "" {
+			cls := []routetable.RouteClass{routetable.RouteClassVXLANSameSubnet, routetable.RouteClassIPIPSameSubnet, routetable.RouteClassNoEncap}[mi]
+			add(expRoute{cls, s.sut.parent[mi], cidr, string(routetable.TargetTypeNoEncap), addr})
+			return
+		}
+		if direct && mi == 2 {
+			return // no parent device known: an unencapsulated route cannot be programmed at all
+		}
+		switch mi {
+		case 0:
+			if _, ok := m.vtep[owner]; ok {
+				add(expRoute{routetable.RouteClassVXLANTunnel, "vxlan.calico", cidr, string(routetable.TargetTypeVXLAN), vtepAddrOf[owner]})
+			}
+		case 1:
+			if hm, ok := m.hostMeta[owner]; ok {
+				add(expRoute{routetable.RouteClassIPIPTunnel, "tunl0", cidr, string(routetable.TargetTypeOnLink), hm})
+			}
+		}
+	}
+	for _, bc := range core.SortedKeys(m.blocks) {
+		b := m.blocks[bc]
+		if b.affinity == localNode {
+			if mode, ok := m.poolOf(bc); ok {
+				cls := map[poolMode]routetable.RouteClass{pmVXLAN: routetable.RouteClassBlackholeVXLAN, pmVXLANCross: routetable.RouteClassBlackholeVXLAN,
+					pmIPIP: routetable.RouteClassBlackholeIPIP, pmIPIPCross: routetable.RouteClassBlackholeIPIP, pmNoEncap: routetable.RouteClassBlackholeNoEncap}[mode]
+				add(expRoute{cls, routetable.InterfaceNone, bc, string(routetable.TargetTypeBlackhole), ""})
+			}
+		} else if b.affinity != "" {
+			remote(bc, b.affinity)
+		}
+		ords := make([]int, 0, len(b.allocs))
+		for o := range b.allocs {
+			ords = append(ords, o)
+		}
+		sort.Ints(ords)
+		for _, o := range ords {
+			owner := b.allocs[o]
+			if owner == b.affinity {
+				continue
+			}
+			c := nthIP(bc, o) + "/32"
+			if owner == localNode {
+				skip[c] = true
+				continue
+			}
+			s.r.Probe("borrowed_address_present")
+			remote(c, owner)
+		}
+	}
+	for k := range exp {
+		sort.Strings(exp[k])
+	}
+	return exp, skip
+}
+
+func actualRoutes(rt *fakeRouteTable, skip map[string]bool) map[string][]string {
+	out := map[string][]string{}
+	for class, byIface := range rt.routes {
+		for iface, ts := range byIface {
+			k := fmt.Sprintf("%d/%s", int(class), iface)
+			for _, t := range ts {
+				if skip[t.CIDR.String()] {
+					continue
+				}
+				gw := ""
+				if t.GW != nil {
+					gw = t.GW.String()
+				}
+				out[k] = append(out[k], fmtExp(expRoute{cidr: t.CIDR.String(), typ: string(t.Type), gw: gw}))
+			}
+			sort.Strings(out[k])
+		}
+	}
+	return out
+}
+
+func flat(m map[string][]string) map[string]string {
+	out := map[string]string{}
+	for k, v := range m {
+		if len(v) > 0 {
+			out[k] = strings.Join(v, "\n    ")
+		}
+	}
+	return out
+}
+
+// ---- simulation
+
+type rsim struct {
+	r     *core.R
+	m     *rmodel
+	sut   *routeDP
+	nodes []string
+	pools []string
+	blks  []string
+	pendingParent string // parent device name not yet reported to the managers
+	lastLocal     string // address of the local node (it survives removal of the node resource)
+	applies int
+}
+
+func (s *rsim) describeModel() string {
+	m := s.m
+	var parts []string
+	for _, n := range core.SortedKeys(m.nodeAddr) {
+		mk := 24
+		if n == localNode {
+			mk = m.localMask
+		}
+		parts = append(parts, fmt.Sprintf("node %s=%s/%d", n, m.nodeAddr[n], mk))
+	}
+	for _, p := range core.SortedKeys(m.pools) {
+		parts = append(parts, fmt.Sprintf("pool %s=%s", p, poolModeNames[m.pools[p]]))
+	}
+	for _, b := range core.SortedKeys(m.blocks) {
+		var al []string
+		ords := make([]int, 0)
+		for o := range m.blocks[b].allocs {
+			ords = append(ords, o)
+		}
+		sort.Ints(ords)
+		for _, o := range ords {
+			al = append(al, fmt.Sprintf("%d:%s", o, m.blocks[b].allocs[o]))
+		}
+		parts = append(parts, fmt.Sprintf("block %s aff=%s allocs=%v", b, m.blocks[b].affinity, al))
+	}
+	for _, w := range core.SortedKeys(m.weps) {
+		parts = append(parts, fmt.Sprintf("wep %s=%s", w, m.weps[w]))
+	}
+	return strings.Join(parts, "; ")
+}
+
+func (s *rsim) opNode() {
+	r := s.r
+	all := append([]string{localNode}, s.nodes...)
+	n := all[r.Src.Intn(len(all), "node_name")]
+	_, exists := s.m.nodeAddr[n]
+	if exists && r.Src.Chance(200, "node_remove") {
+		r.Op("node %s removed", n)
+		delete(s.m.nodeAddr, n)
+		delete(s.m.hostMeta, n)
+		delete(s.m.vtep, n)
+		s.deliverNode(n)
+		return
+	}
+	if n == localNode {
+		// address stays on the NIC the harness last chose; the subnet width varies
+		if !exists {
+			s.m.nodeAddr[n] = s.lastLocal
+		}
+		s.m.localMask = []int{24, 16}[r.Src.Intn(2, "local_mask")]
+		if exists {
+			r.Probe("local_subnet_changed")
+		}
+	} else {
+		a := nodeAddrPool[r.Src.Intn(len(nodeAddrPool), "node_addr")]
+		if exists && s.m.nodeAddr[n] != a {
+			r.Probe("remote_node_readdressed")
+		}
+		s.m.nodeAddr[n] = a
+	}
+	s.m.hostMeta[n] = s.m.nodeAddr[n]
+	s.m.vtep[n] = s.m.nodeAddr[n]
+	r.Op("node %s -> %s (local mask /%d)", n, s.m.nodeAddr[n], s.m.localMask)
+	s.deliverNode(n)
+}
+
+// deliverNode sends the three messages a node change produces (node resource to the resolver, host
+// metadata and VTEP to the managers) in a seed-chosen relative order.
+func (s *rsim) deliverNode(n string) {
+	addr := s.m.nodeAddr[n]
+	mask := 24
+	if n == localNode {
+		mask = s.m.localMask
+	}
+	for _, k := range s.r.Src.Perm(3, "node_msg_order") {
+		switch k {
+		case 0:
+			s.sut.sendNode(n, addr, mask)
+		case 1:
+			s.sut.sendHostMeta(n, addr)
+		case 2:
+			s.sut.sendVTEP(n, addr)
+		}
+	}
+}
+
+func (s *rsim) opPool() {
+	r := s.r
+	p := s.pools[r.Src.Intn(len(s.pools), "pool")]
+	_, exists := s.m.pools[p]
+	if exists && r.Src.Chance(200, "pool_remove") {
+		r.Op("pool %s removed", p)
+		delete(s.m.pools, p)
+		s.sut.sendPool(p, 0, false)
+		return
+	}
+	mode := poolMode(r.Src.Intn(5, "pool_mode"))
+	if exists && s.m.pools[p] != mode {
+		r.Probe("pool_mode_changed")
+	}
+	r.Op("pool %s -> %s", p, poolModeNames[mode])
+	s.m.pools[p] = mode
+	s.sut.sendPool(p, mode, true)
+}
+
+func (s *rsim) opBlock() {
+	r := s.r
+	bc := s.blks[r.Src.Intn(len(s.blks), "block")]
+	_, exists := s.m.blocks[bc]
+	if exists && r.Src.Chance(200, "block_remove") {
+		r.Op("block %s removed", bc)
+		delete(s.m.blocks, bc)
+		s.dropWepsIn(bc, nil)
+		s.sut.sendBlock(bc, nil)
+		return
+	}
+	owners := append([]string{localNode}, s.nodes...)
+	b := &blockM{allocs: map[int]string{}}
+	ai := r.Src.Intn(len(owners)+1, "block_affinity")
+	if ai < len(owners) {
+		b.affinity = owners[ai]
+	}
+	for i, n := 0, r.Src.Intn(3, "block_nallocs"); i < n; i++ {
+		b.allocs[1+r.Src.Intn(3, "alloc_ordinal")] = owners[r.Src.Intn(len(owners), "alloc_owner")]
+	}
+	if exists && s.m.blocks[bc].affinity != b.affinity {
+		r.Probe("block_affinity_changed")
+	}
+	s.m.blocks[bc] = b
+	s.dropWepsIn(bc, b)
+	r.Op("block %s affinity=%q allocs=%v", bc, b.affinity, fmtAllocs(b))
+	s.sut.sendBlock(bc, b)
+}
+
+func fmtAllocs(b *blockM) string {
+	ords := make([]int, 0)
+	for o := range b.allocs {
+		ords = append(ords, o)
+	}
+	sort.Ints(ords)
+	var out []string
+	for _, o := range ords {
+		out = append(out, fmt.Sprintf("%d:%s", o, b.allocs[o]))
+	}
+	return strings.Join(out, ",")
+}
+
+// dropWepsIn removes local workloads whose address is no longer allocated to the local node (contract:
+// a workload's address is held in IPAM for its node).
+func (s *rsim) dropWepsIn(bc string, b *blockM) {
+	for _, w := range core.SortedKeys(s.m.weps) {
+		ipa := s.m.weps[w]
+		if !contains(bc, ipa) {
+			continue
+		}
+		ok := false
+		if b != nil {
+			for o, owner := range b.allocs {
+				if owner == localNode && nthIP(bc, o) == ipa {
+					ok = true
+				}
+			}
+		}
+		if !ok {
+			s.r.Logf("  local workload %s (%s) removed first", w, ipa)
+			delete(s.m.weps, w)
+			s.sut.sendWep(w, "")
+		}
+	}
+}
+
+func (s *rsim) opWep() {
+	r := s.r
+	names := []string{"w1", "w2"}
+	w := names[r.Src.Intn(len(names), "wep")]
+	if _, ok := s.m.weps[w]; ok {
+		r.Op("local workload %s removed", w)
+		delete(s.m.weps, w)
+		s.sut.sendWep(w, "")
+		return
+	}
+	var cands []string
+	for _, bc := range core.SortedKeys(s.m.blocks) {
+		b := s.m.blocks[bc]
+		for o := 1; o <= 3; o++ {
+			if b.allocs[o] == localNode {
+				cands = append(cands, nthIP(bc, o))
+			}
+		}
+	}
+	if len(cands) == 0 {
+		return
+	}
+	ipa := cands[r.Src.Intn(len(cands), "wep_ip")]
+	r.Op("local workload %s -> %s", w, ipa)
+	r.Probe("local_workload_present")
+	s.m.weps[w] = ipa
+	s.sut.sendWep(w, ipa)
+}
+
+func (s *rsim) opParentMove() {
+	r := s.r
+	if _, ok := s.m.nodeAddr[localNode]; !ok {
+		return
+	}
+	// the local address moves to the other NIC; the device goroutine reports the new parent later
+	na, dev := "192.168.1.2", "eth1"
+	if s.m.nodeAddr[localNode] == "192.168.1.2" {
+		na, dev = "192.168.1.1", "eth0"
+	}
+	r.Op("local address moves to %s on %s", na, dev)
+	r.Probe("parent_device_moved")
+	s.m.nodeAddr[localNode], s.m.hostMeta[localNode], s.m.vtep[localNode] = na, na, na
+	s.lastLocal = na
+	s.deliverNode(localNode)
+	s.pendingParent = dev
+}
+
+func (s *rsim) reportParent() {
+	if s.pendingParent == "" {
+		return
+	}
+	s.r.Logf("  device goroutine reports parent %s", s.pendingParent)
+	for i, m := range s.sut.mgrs {
+		if s.sut.pAddr[i] != "" { // the goroutine only runs once the manager knows its local address
+			m.OnParentDeviceUpdate(s.pendingParent)
+			s.sut.parent[i] = s.pendingParent
+		}
+	}
+	s.pendingParent = ""
+}
+
+func (s *rsim) opApply(quiesce bool) {
+	r := s.r
+	if quiesce {
+		s.sut.nl.failList = false
+		s.reportParent()
+	} else {
+		s.sut.nl.failList = r.Src.Chance(150, "netlink_list_fails")
+		if s.pendingParent != "" && r.Src.Chance(500, "parent_report_now") {
+			s.reportParent()
+		}
+	}
+	unknownBefore := 0
+	for i := range s.sut.parent {
+		if s.sut.parent[i] == "" && s.sut.pAddr[i] != "" {
+			unknownBefore++
+		}
+	}
+	r.Op("apply (CompleteDeferredWork x3) netlink_fail=%v", s.sut.nl.failList)
+	s.sut.apply()
+	s.applies++
+	if s.sut.nl.failList && unknownBefore > 0 {
+		r.Fault("netlink_link_list_error")
+	}
+	s.check(fmt.Sprintf("apply #%d", s.applies), quiesce)
+}
+
+func (s *rsim) check(after string, final bool) {
+	r := s.r
+	if s.pendingParent != "" {
+		return // managers legitimately still use the previous parent device
+	}
+	exp, skip := s.expected()
+	got := actualRoutes(s.sut.rt, skip)
+	df := diffCanon(flat(got), flat(exp), "route table", "expected from pools/nodes/blocks")
+	r.Check("route_targets_match_encapsulation", len(df) == 0, "after %s: route-table targets (key = class/interface) differ from what the model requires [%s]:\n%s", after, s.describeModel(), headDiffs(df))
+	if !final {
+		return
+	}
+	// no blackhole route is an exact route of a local workload's address
+	for class, byIface := range s.sut.rt.routes {
+		if class != routetable.RouteClassBlackholeVXLAN && class != routetable.RouteClassBlackholeIPIP && class != routetable.RouteClassBlackholeNoEncap {
+			continue
+		}
+		for _, t := range byIface[routetable.InterfaceNone] {
+			for _, w := range core.SortedKeys(s.m.weps) {
+				r.Check("blackhole_not_on_workload_address", t.CIDR.String() != s.m.weps[w]+"/32", "blackhole route %s is the exact address of local workload %s", t.CIDR.String(), w)
+			}
+		}
+	}
+	// order independence: a fresh resolver+managers fed the final state in another order
+	ref := newRouteDP()
+	ref.nl.links = s.sut.nl.links
+	s.feedFinal(ref)
+	ref.apply()
+	if par := s.sut.parent; par[0] != "" || par[1] != "" || par[2] != "" {
+		for i, m := range ref.mgrs {
+			if s.sut.parent[i] != "" && ref.parent[i] != s.sut.parent[i] {
+				m.OnParentDeviceUpdate(s.sut.parent[i])
+				ref.parent[i] = s.sut.parent[i]
+			}
+		}
+		ref.apply()
+	}
+	df = diffCanon(s.sut.rt.canon(), ref.rt.canon(), "managers under test", "fresh resolver+managers fed the final state")
+	r.Check("routes_independent_of_arrival_order", len(df) == 0, "after %s: route table differs from a fresh resolver+managers fed the same final state in another order [%s]:\n%s", after, s.describeModel(), headDiffs(df))
+}
+
+func (s *rsim) feedFinal(d *routeDP) {
+	m := s.m
+	type item struct{ kind int; key string }
+	var items []item
+	for _, n := range core.SortedKeys(m.nodeAddr) {
+		items = append(items, item{0, n}, item{1, n}, item{2, n})
+	}
+	for _, p := range core.SortedKeys(m.pools) {
+		items = append(items, item{3, p})
+	}
+	for _, b := range core.SortedKeys(m.blocks) {
+		items = append(items, item{4, b})
+	}
+	for _, w := range core.SortedKeys(m.weps) {
+		items = append(items, item{5, w})
+	}
+	for _, i := range s.r.Src.Perm(len(items), "ref_order") {
+		it := items[i]
+		switch it.kind {
+		case 0:
+			mask := 24
+			if it.key == localNode {
+				mask = m.localMask
+			}
+			d.sendNode(it.key, m.nodeAddr[it.key], mask)
+		case 1:
+			d.sendHostMeta(it.key, m.hostMeta[it.key])
+		case 2:
+			d.sendVTEP(it.key, m.vtep[it.key])
+		case 3:
+			d.sendPool(it.key, m.pools[it.key], true)
+		case 4:
+			d.sendBlock(it.key, m.blocks[it.key])
+		case 5:
+			d.sendWep(it.key, m.weps[it.key])
+		}
+	}
+}
+
+func declareRoutes(r *core.R) {
+	r.FaultDecl("netlink_link_list_error")
+	r.ProbeDecl("local_subnet_changed", "remote_node_readdressed", "pool_mode_changed", "block_affinity_changed", "borrowed_address_present",
+		"local_workload_present", "parent_device_moved", "direct_route_programmed", "tunnel_route_programmed", "blackhole_programmed",
+		"cross_subnet_pool_tunnel_route", "cross_subnet_pool_direct_route")
+}
+
+func runRoutes(r *core.R) string {
+	s := &rsim{r: r, sut: newRouteDP(), lastLocal: "192.168.1.1", m: &rmodel{nodeAddr: map[string]string{}, localMask: 24, hostMeta: map[string]string{}, vtep: map[string]string{},
+		pools: map[string]poolMode{}, blocks: map[string]*blockM{}, weps: map[string]string{}}}
+	s.nodes = remoteNodes[:r.Src.Range(1, len(remoteNodes), "n_nodes")]
+	s.pools = poolCIDRs[:r.Src.Range(1, len(poolCIDRs), "n_pools")]
+	s.blks = blockCIDRs[:r.Src.Range(2, len(blockCIDRs), "n_blocks")]
+	maxOps := 60
+	if r.Tier == "thorough" {
+		maxOps = 140
+	}
+	nOps := r.Src.Range(6, maxOps, "n_ops")
+	r.Cfg("nodes", len(s.nodes))
+	r.Cfg("pools", len(s.pools))
+	r.Cfg("blocks", len(s.blks))
+	r.Cfg("ops", nOps)
+	w := []int{
+		r.Src.Range(4, 14, "w_node"),
+		r.Src.Range(3, 10, "w_pool"),
+		r.Src.Range(6, 16, "w_block"),
+		r.Src.Range(0, 5, "w_wep"),
+		r.Src.Range(3, 12, "w_apply"),
+		r.Src.Range(0, 2, "w_parent_move"),
+	}
+	for i := 0; i < nOps; i++ {
+		switch r.Src.Weighted(w, "op") {
+		case 0:
+			s.opNode()
+		case 1:
+			s.opPool()
+		case 2:
+			s.opBlock()
+		case 3:
+			s.opWep()
+		case 4:
+			s.opApply(false)
+		case 5:
+			s.opParentMove()
+		}
+	}
+	s.opApply(true)
+	s.opApply(true)
+	// reach probes over the final table
+	for class, byIface := range s.sut.rt.routes {
+		for _, ts := range byIface {
+			for _, t := range ts {
+				switch class {
+				case routetable.RouteClassVXLANSameSubnet, routetable.RouteClassIPIPSameSubnet:
+					r.Probe("direct_route_programmed")
+					r.Probe("cross_subnet_pool_direct_route")
+				case routetable.RouteClassNoEncap:
+					r.Probe("direct_route_programmed")
+				case routetable.RouteClassVXLANTunnel, routetable.RouteClassIPIPTunnel:
+					r.Probe("tunnel_route_programmed")
+					if mode, ok := s.m.poolOf(t.CIDR.String()); ok && mode.cross() {
+						r.Probe("cross_subnet_pool_tunnel_route")
+					}
+				default:
+					r.Probe("blackhole_programmed")
+				}
+			}
+		}
+	}
+	return s.describeModel()
+}
